@@ -37,13 +37,13 @@ type sgrSummary struct {
 }
 
 type sgrAnalyzer struct {
-	mr    *ModeReach
-	sum   map[*ssa.Function]*sgrSummary
-	viol  map[string]sgrViolation
-	depth int
-	extra map[*ssa.Function]bool // dependency functions analysed (term/color)
-	nEv   int
-	record bool
+	mr      *ModeReach
+	sum     map[*ssa.Function]*sgrSummary
+	viol    map[string]sgrViolation
+	depth   int
+	extra   map[*ssa.Function]bool // dependency functions analysed (term/color)
+	nEv     int
+	record  bool
 	entries map[*ssa.Function]sgrState
 }
 
@@ -88,7 +88,7 @@ func (a *sgrAnalyzer) analysable(fn *ssa.Function) bool {
 	}
 	if pk != nil && pk.Pkg.Path() == "github.com/hedzr/is/term/color" {
 		// colour helpers of the dependency write the escape sequences themselves; the markup translator is text
-		if strings.Contains(fn.Name(), "ranslate") || fn.Signature.Recv() != nil {
+		if strings.Contains(nm(fn), "ranslate") || fn.Signature.Recv() != nil {
 			return false
 		}
 		return true
@@ -254,7 +254,7 @@ func (a *sgrAnalyzer) step(fn *ssa.Function, ins ssa.Instruction, st sgrState) s
 	cal := calleeOf(cs)
 	name := invokeName(cs)
 	if cal != nil {
-		name = cal.Name()
+		name = nm(cal)
 	}
 	// primitive writes
 	switch name {
